@@ -312,11 +312,11 @@ def classify(status, detail, stats):
             f9, ro = int(stats.get("f9", "0")), int(stats.get("resover", "0"))
             sf9, sro = int(stats.get("sus-f9", "0")), int(stats.get("sus-resover", "0"))
             if f9 > 0:
-                return ("F9", "debug check_refcounts panic after an awaiting/receiving overwrite without release")
+                return ("F9", "debug check_refcounts panic after a counted reference held in awaiting/receiving was dropped without release")
             if ro > 0 or (sro > 0 and sf9 == 0):
                 return ("resover", "Ok result holding a binary overwritten by a propagated error without release")
             if sf9 > 0:
-                return ("F9", "debug check_refcounts panic in the step that overwrote awaiting/receiving")
+                return ("F9", "debug check_refcounts panic in the step that dropped a value held in awaiting/receiving")
         return ("violation", "real code panicked: " + detail[:300])
     if status == "oracle":
         return ("violation", "oracle failed on the real code: " + detail[:300])
@@ -324,7 +324,7 @@ def classify(status, detail, stats):
         if int(stats.get("orphans", "0")) > int(stats.get("orphans-spawn", "0")):
             return ("violation", "heap slots left allocated with count 0 and never queued for reclamation (not explained by spawn_process)")
         if int(stats.get("f9", "0")) > 0 or ledger:
-            return ("F9", "reference leaked by an awaiting/receiving overwrite without release (exact count off by the displaced value)")
+            return ("F9", "a counted reference held in awaiting/receiving was dropped without release (exact count off by exactly that value)")
         if int(stats.get("resover", "0")) > 0:
             return ("resover", "Ok result holding a binary overwritten by a propagated error without release")
         return None
@@ -468,6 +468,9 @@ def run(ctx):
     ops_compared = 0
     f9_cases = resover_cases = f46_cases = 0
     runs_preempted = 0
+    seen_kinds = {}
+    suppressed_repeats = 0
+    disagree_reported = 0
     distinct = set()
     nontrivial = 0
     samples = []
@@ -507,6 +510,12 @@ def run(ctx):
             samples.append({"source": programs[meta["prog"]][0], "workers": meta["workers"], "quantum": meta["quantum"],
                             "sched": meta["sched"], "status": status, "stats": stats})
         cl = classify(status, detail, stats)
+        if cl is not None:
+            seen_kinds[cl[1][:60]] = seen_kinds.get(cl[1][:60], 0) + 1
+            if seen_kinds[cl[1][:60]] > 5:
+                # same failure class already reported five times with replays: count, do not flood
+                suppressed_repeats += 1
+                cl = None
         if int(stats.get("orphans-spawn", "0")) > 0:
             # F46 (known): spawn_process injects the whole heap bundle once per capture and once for
             # the argument; the copies it does not reference stay allocated with count 0
@@ -549,8 +558,10 @@ def run(ctx):
                 pass
             else:
                 disagree += 1
+                disagree_reported += 1
                 # a disagreement alone is not a violation: the oracle above decides; none found -> no_input
-                ctx.violation({"kind": "correspondence-broken", "correspondence": "HeapVm model vs Executor state after every operation",
+                if disagree_reported <= 5:
+                    ctx.violation({"kind": "correspondence-broken", "correspondence": "HeapVm model vs Executor state after every operation",
                                "case": line, "model_says": m[:3000], "oracle_on_this_case": status},
                               no_input=(cl is None or cl[0] != "violation"))
     for pi, (src, feat, _) in enumerate(programs):
@@ -581,7 +592,7 @@ def run(ctx):
         "traces_validated_against_impl": agree + agree_fixed,
         "model_operations_compared": ops_compared,
         "model_agrees_with_code_as_committed": agree, "model_agrees_only_with_a_pre_repair_variant": agree_fixed, "pre_repair_modes_seen": modes_seen,
-        "disagreements_checked": disagree + bad,
+        "disagreements_checked": disagree + bad, "repeated_failures_not_re_reported": suppressed_repeats,
         "f9_runs": f9_cases, "f45h_result_overwrite_runs": resover_cases, "f46_orphan_runs": f46_cases, "value_probes_on_real_environment": len(f28), "value_probes_bad": f28_bad,
         "corpus_preemption_probes_that_preempted": sum(1 for (l, m), pr in zip(cases, parsed) if "select_preempt" in str(m.get("origin")) and int(pr[2].get("preempted", "0")) > 0),
         "histogram_quantum": {str(k): v for k, v in sorted(hist_q.items(), key=lambda x: str(x[0]))},
